@@ -363,6 +363,12 @@ V("c18-n-inplace-division", "C18", "pass", edits=[(ADF, "        self.model_weig
 
 # ------------------------------------------------------------------------------------ C15
 FTF = "dynamics/integration_events/finite_thrust.py"
+FB = "data/events/finite_burn.py"
+V("c15-burn-end-rounded", "C15", "violation", "C15.R7", edits=[(FB, "        end_sim_time = end_jd.convertToScenarioTime(scope_instance.julian_date_start)", "        end_sim_time = round(end_jd.convertToScenarioTime(scope_instance.julian_date_start))")])
+V("c15-burn-slots-swapped", "C15", "violation", "C15.R7", edits=[(FB, "            start_sim_time,\n            end_sim_time,\n            thrust_func,", "            end_sim_time,\n            start_sim_time,\n            thrust_func,")])
+V("c15-burn-against-clock-zero", "C15", "violation", "C15.R7", edits=[(FB, "        start_sim_time = start_jd.convertToScenarioTime(scope_instance.julian_date_start)", "        start_sim_time = start_jd.convertToScenarioTime(scope_instance.julian_date_epoch)")])
+V("c15-n-burn-times-inline", "C15", "pass", edits=[(FB, "        start_jd = JulianDate(self.start_time_jd)\n        end_jd = JulianDate(self.end_time_jd)\n        start_sim_time = start_jd.convertToScenarioTime(scope_instance.julian_date_start)\n        end_sim_time = end_jd.convertToScenarioTime(scope_instance.julian_date_start)", "        start_sim_time = JulianDate(self.start_time_jd).convertToScenarioTime(scope_instance.julian_date_start)\n        end_sim_time = JulianDate(self.end_time_jd).convertToScenarioTime(scope_instance.julian_date_start)")])
+V("c01-impulse-time-truncated", "C01", "violation", "C01.R11", edits=[("data/events/scheduled_impulse.py", "        start_sim_time = start_jd.convertToScenarioTime(scope_instance.julian_date_start)", "        start_sim_time = int(start_jd.convertToScenarioTime(scope_instance.julian_date_start))")])
 V("c15-spiral-on-radial-axis", "C15", "violation", "C15.R5", edits=[(FTF, "    delta_a = array([0, magnitude, 0])\n", "    delta_a = array([magnitude, 0, 0])\n")])
 V("c15-plane-change-hemisphere-flipped", "C15", "violation", "C15.R5", edits=[(FTF, "if state[2] >= 0 else array([0, 0, -magnitude])", "if state[2] < 0 else array([0, 0, -magnitude])")])
 V("c15-plane-change-no-sign", "C15", "violation", "C15.R5", edits=[(FTF, "    delta_a = array([0, 0, magnitude]) if state[2] >= 0 else array([0, 0, -magnitude])\n", "")])
@@ -585,6 +591,12 @@ V("c06-n-polar-factor-matmul-operator", "C06", "pass", edits=[("physics/maths.py
 V("c02-noise-factor-numpy-cholesky-transposed", "C02", "violation", "C02.R12", edits=[("physics/measurements.py", "        self._sqrt_noise_covar = real(sqrtm(self._r_matrix))", "        self._sqrt_noise_covar = np_cholesky(self._r_matrix).T"), ("physics/measurements.py", "from scipy.linalg import norm, sqrtm", "from numpy.linalg import cholesky as np_cholesky\nfrom scipy.linalg import norm, sqrtm")])
 V("c02-n-noise-factor-lower-cholesky", "C02", "pass", edits=[("physics/measurements.py", "        self._sqrt_noise_covar = real(sqrtm(self._r_matrix))", "        self._sqrt_noise_covar = cholesky(self._r_matrix, lower=True)"), ("physics/measurements.py", "from scipy.linalg import norm, sqrtm", "from scipy.linalg import cholesky, norm, sqrtm")])
 V("c02-noise-root-of-input", "C02", "violation", "C02.R12", edits=[("physics/measurements.py", "        self._sqrt_noise_covar = real(sqrtm(self._r_matrix))", "        self._sqrt_noise_covar = real(sqrtm(r_matrix))")])
+
+# ------------------------------------------------------------------------------------ C10.R8 class-level state, C16.R1 in the multiple-model filters
+V("c10-class-tolerance-setter", "C10", "violation", "C10.R8", edits=[("dynamics/dynamics_base.py", "    ABSOLUTE_TOL = 10**-12\n", "    ABSOLUTE_TOL = 10**-12\n\n    @classmethod\n    def setTolerances(cls, relative, absolute):\n        cls.RELATIVE_TOL = relative\n        cls.ABSOLUTE_TOL = absolute\n")])
+V("c10-class-tolerance-via-type-self", "C10", "violation", "C10.R8", edits=[("dynamics/dynamics_base.py", "    ABSOLUTE_TOL = 10**-12\n", "    ABSOLUTE_TOL = 10**-12\n\n    def loosen(self, factor):\n        type(self).RELATIVE_TOL = self.RELATIVE_TOL * factor\n")])
+V("c10-n-instance-tolerance", "C10", "pass", edits=[("dynamics/dynamics_base.py", "    ABSOLUTE_TOL = 10**-12\n", "    ABSOLUTE_TOL = 10**-12\n\n    def setTolerances(self, relative, absolute):\n        self.RELATIVE_TOL = relative\n        self.ABSOLUTE_TOL = absolute\n")])
+V("c16-mmae-innovation-raw-difference", "C16", "violation", "C16.R1", edits=[("estimation/adaptive/adaptive_filter.py", "            self.innovation = dot(\n                vstack([[x.innovation for x in self.models]]).T,\n                self.model_weights,\n            )", "            self.innovation = self.true_y - self.mean_pred_y")])
 
 # ------------------------------------------------------------------------------------ memo soundness / cache coherence
 RED = "physics/transforms/reductions.py"
